@@ -202,7 +202,12 @@ def impl_exec(ops):
                 h = Hands(*[cards(x) for x in t[2:6]])
                 r = hx(h.to_pbn(Player[t[1]]))
             elif t[0] == 'H.parse':
-                r = show(Hands.convert_pbn(un(t[1])))
+                hh = Hands.convert_pbn(un(t[1]))
+                r = show(hh)
+                # the caller owns what a decoder returns: it is USED (played out in place) here, so that a decoder which
+                # hands the same mutable sets out twice (a cache) shows when the same text is decoded again
+                for p_ in P:
+                    hh[p_].clear()
             elif t[0] == 'H.bin':
                 h = Hands(*[cards(x) for x in t[1:5]])
                 b = h.to_binary()
@@ -234,7 +239,10 @@ def impl_exec(ops):
                 for x in t[1:5]:
                     s = un(x)
                     lists.append([] if s == '' else s.split(','))
-                r = show(hands_parser(dict(zip('NESW', lists))))
+                hh = hands_parser(dict(zip('NESW', lists)))
+                r = show(hh)
+                for p_ in P:
+                    hh[p_].clear()
             elif t[0] == 'H.deal':
                 perm = [int(x) for x in t[1].split(',')]
                 orig = random.shuffle
